@@ -93,7 +93,8 @@ def eval_bytes(exe, data, base_plain, case, stats, tag, file_operand=False, tags
                "stderr": r.err[:80].decode(errors="replace")} if hdr_ok else None)
     if bad:
         return {"data_hex": data.hex(), "n": case.get("n"), "sched": case.get("sched"), "ing": case.get("ing"),
-                "file_operand": file_operand, "what": bad, "reason": info["reason"], "slow_close": case.get("slow_close", False)}
+                "file_operand": file_operand, "what": bad, "reason": info["reason"], "slow_close": case.get("slow_close", False),
+                "hang": bad.startswith("hang")}
     return None
 
 
